@@ -21,7 +21,7 @@ PROPS = {
         "explanation": "Decides: at most one command execution per rule per build (no call site of the chain on a cycle or twice on a path); the Up-to-date path reaches no mutating System method; the command runs only on the true edge of needs-rebuild; NeedsRebuild only after the cache (and download) said NotThere; what was learned is persisted (history returned and written); the hashes handed to dependents are hashes just taken from the files, never remembered ones (a stale or empty one makes dependents miss their history and run). Not decided: that a lookup hits on a given history.",
     },
     "C03": {
-        "rules": ["C03.R1", "C03.R2", "C03.R3", "C03.R4", "C03.R5", "C09.R3", "C12.R3", "C12.R4", "C12.R7", "C01.R11", "C04.R1"],
+        "rules": ["C03.R1", "C03.R2", "C03.R3", "C03.R4", "C03.R5", "C09.R3", "C12.R3", "C12.R4", "C12.R7", "C01.R11", "C04.R1", "C18.R1"],
         "explanation": "Decides the happens-before chain of C03 as it is visible in the code's shape: handler only on the Ok edge of the draining function; draining function returns Ok only after recv succeeded on every receiver; hashes are announced only after the handler returned Ok and are taken from its result by the sub-index stored with the sender; the handler's Ok after a command means every command line exited with status 0 (a failed producer never releases its dependents). Not decided: correctness of the announced content, acyclicity of the runtime plan.",
     },
     "C04": {
@@ -30,11 +30,11 @@ PROPS = {
     },
     "C05": {
         "rules": ["C05.R1", "C03.R2", "C03.R4", "C05.R3", "C04.R3", "C05.R5", "C12.R5", "C12.R6", "C12.R4", "C05.R6"],
-        "explanation": "Decides the channel protocol that makes build/clean terminate: exactly one packet per edge per return path, receivers drained completely, all spawns before any join and every handle joined; the sub-index a dependent is wired with is a position in the producer's own target list (an out-of-range one panics the producer's thread). Not decided: acyclicity of the runtime wait-for graph (sorter output).",
+        "explanation": "Decides the channel protocol that makes build/clean terminate: exactly one packet per edge per return path, receivers drained completely, all spawns before any join and every handle joined; the sub-index a dependent is wired with is a position in the producer's own target list (an out-of-range one panics the producer's thread); every loop reachable from the entry points is a `for` over an iterator or a reviewed loop with the reason it ends (a new loop of another kind is an open obligation); Not decided: acyclicity of the runtime wait-for graph (sorter output).",
     },
     "C06": {
-        "rules": ["C06.R1", "C06.R3", "C06.R3b", "C09.R3", "C12.R1", "C05.R1", "C05.R3", "C01.R2", "C18.R2", "C01.R5"],
-        "explanation": "Non-interference argument: threads share nothing but channels and the file system (capture inventory); the only contended resource is the cache directory, on which no check-then-act may turn a lost race into a hard error; absence of a cache entry is never an error; channel results are consumed in receiver order, never arrival order; a rule whose restore lost the race for a shared entry is rebuilt (the needs-rebuild predicate is true if *any* target needs it); a restored file is never hashed through the mtime shortcut with the state of the file it replaced (which physical file - and so which mtime - a shared cache entry holds depends on the order in which sibling rules backed up identical content). Not decided: equality of final bytes.",
+        "rules": ["C06.R1", "C06.R3", "C06.R3b", "C09.R3", "C12.R1", "C05.R1", "C05.R3", "C01.R2", "C18.R2", "C01.R5", "C06.R4"],
+        "explanation": "Non-interference argument: threads share nothing but channels and the file system (capture inventory); the only contended resource is the cache directory, on which no check-then-act may turn a lost race into a hard error; absence of a cache entry is never an error; channel results are consumed in receiver order, never arrival order; a rule whose restore lost the race for a shared entry is rebuilt (the needs-rebuild predicate is true if *any* target needs it); a restored file is never hashed through the mtime shortcut with the state of the file it replaced (which physical file - and so which mtime - a shared cache entry holds depends on the order in which sibling rules backed up identical content); rule threads create no directory or file on a test-then-create basis; Not decided: equality of final bytes.",
     },
     "C07": {
         "rules": ["C07.R1", "C07.R2", "C07.R3", "C07.R4", "C07.R5", "C01.R6", "C01.R9", "C01.R10", "C18.R1", "C18.R2", "C15.R1", "C18.R5"],
@@ -58,7 +58,7 @@ PROPS = {
     },
     "C12": {
         "rules": ["C12.R1", "C12.R2", "C12.R3", "C12.R4", "C12.R5", "C12.R6", "C12.R7", "C12.R8"],
-        "explanation": "Decides: duplicate targets are detected for every target of every rule; the goal-restricted sort starts only at an existing goal; rules / targets / sources are sorted before numbering and no hash-order iteration reaches the plan; every source is bound to (final index of the producing rule, position among its targets) or to its leaf entry; both cyclic verdicts exist and are guarded; the cycle verdict is issued only against open (visited, on-stack) frames; a whole-graph sort starts a search at every rule and a failed search ends it. Not decided: that the DFS visits exactly the ancestors, once, in dependency order (algorithmic).",
+        "explanation": "Decides: duplicate targets are detected for every target of every rule; the goal-restricted sort starts only at an existing goal; rules / targets / sources are sorted before numbering and no hash-order iteration reaches the plan; every source is bound to (final index of the producing rule, position among its targets) or to its leaf entry; both cyclic verdicts exist and are guarded; the cycle verdict is issued only against open (visited, on-stack) frames; a whole-graph sort starts a search at every rule and a failed search ends it; the cyclic verdicts are raised inside the search only (never against rules the goal does not reach); Not decided: that the DFS visits exactly the ancestors, once, in dependency order (algorithmic).",
     },
     "C13": {
         "rules": ["C13.R1", "C13.R2", "C13.R3", "C13.R4", "C07.R2"],
@@ -66,7 +66,7 @@ PROPS = {
     },
     "C14": {
         "rules": ["C14.R1", "C14.R2", "C14.R3", "C14.R4", "C14.R5", "C14.R6", "C14.R7", "C14.R8", "C14.R9"],
-        "explanation": "Decides: the parser's panic obligations (bounds checks guarded by length tests, counters); every state-machine error carries the file name and a line counter that starts at 1 and advances exactly once per line; the transition table read back from the code equals the documented one (4 modes x {empty, ':', other} and the end-of-input verdicts); bundle nodes are merged through a BTreeMap (canonical order, duplicates merged, kind clash rejected); the bundle layer's rejections exist and are guarded; indentation is measured in tabs only (level/text never derive from a whitespace-general operation); no byte offset into a string derives from a character count; the targets and sources of a rule are always what the bundle parser yields for their section. Not decided: equality of the accepted language / yielded strings with the grammar for all texts.",
+        "explanation": "Decides: the parser's panic obligations (bounds checks guarded by length tests, counters); every state-machine error carries the file name and a line counter that starts at 1 and advances exactly once per line; the transition table read back from the code equals the documented one (4 modes x {empty, ':', other} and the end-of-input verdicts); bundle nodes are merged through a BTreeMap (canonical order, duplicates merged, kind clash rejected); the bundle layer's rejections exist and are guarded; indentation is measured in tabs only (level/text never derive from a whitespace-general operation); no byte offset into a string derives from a character count; the targets and sources of a rule are always what the bundle parser yields for their section; a shared prefix buffer in the bundle expander is restored to a saved length only; the targets section is judged before the sources section; Not decided: equality of the accepted language / yielded strings with the grammar for all texts.",
     },
     "C15": {
         "rules": ["C15.R1", "C15.R2", "C15.R3", "C15.R4", "C15.R5"],
@@ -82,11 +82,11 @@ PROPS = {
     },
     "C18": {
         "rules": ["C18.R1", "C18.R2", "C18.R3", "C01.R6", "C01.R9", "C01.R10", "C11.R2", "C18.R4", "C18.R5"],
-        "explanation": "Decides: the shortcut is taken only under exact equality of the file's own mtime with the remembered one; the table is refreshed whenever a command ran; a restored file is never hashed through the shortcut with the state of the file it replaced, and always gets a fresh stored state (unconditionally, not only when the mtimes differ). Not decided: equality of paired runs over all histories.",
+        "explanation": "Decides: the shortcut is taken only under exact equality of the file's own mtime with the remembered one; the table is refreshed whenever a command ran; a restored file is never hashed through the shortcut with the state of the file it replaced, and always gets a fresh stored state (unconditionally, not only when the mtimes differ); different modification times give different timestamp numbers (whole seconds scaled by the unit of the sub-second part); Not decided: equality of paired runs over all histories.",
     },
     "C19": {
-        "rules": ["C19.R1", "C19.R2", "C19.R3", "C19.R4", "C19.R5", "C19.R6", "C07.R2", "C15.R4", "C01.R4"],
-        "explanation": "Decides: both endpoints decode every request name as a ticket before any file-system access and answer 404 otherwise; the only file-system entry points reachable from a request take a Ticket and build `<ruler dir>/<43 alphanumerics>`; 200 only on the success edges of lookup and read, every lookup failure is 404, bodies are the opened entry's bytes / the newline-joined hashes of the looked-up vector; request handlers' panic obligations; the lookup key type compares all 32 bytes (derived equality on Ticket); a cache entry is opened for serving only after it was found to be a regular file. Not decided: that served bytes equal the requested content at runtime (C07); warp's routing.",
+        "rules": ["C19.R1", "C19.R2", "C19.R3", "C19.R4", "C19.R5", "C19.R6", "C07.R2", "C15.R4", "C01.R4", "C19.R7"],
+        "explanation": "Decides: both endpoints decode every request name as a ticket before any file-system access and answer 404 otherwise; the only file-system entry points reachable from a request take a Ticket and build `<ruler dir>/<43 alphanumerics>`; 200 only on the success edges of lookup and read, every lookup failure is 404, bodies are the opened entry's bytes / the newline-joined hashes of the looked-up vector; request handlers' panic obligations; the lookup key type compares all 32 bytes (derived equality on Ticket); a cache entry is opened for serving only after it was found to be a regular file; the objects the endpoints look things up through carry no memo (no container / interior-mutability field), so answers come from the files as they are now; Not decided: that served bytes equal the requested content at runtime (C07); warp's routing.",
     },
     "C20": {
         "rules": ["C20.R1", "C20.R2", "C20.R3", "C20.R4", "C04.R5", "C02.R2", "C04.R1"],
